@@ -16,6 +16,9 @@ Layers (DESIGN §7 C09, design_notes/C09.md):
      harness/impl/corevm.py) are replayed in the Lean model; the model's index must equal the real one after every
      external event and every guard of the model must hold on the recorded stream.
   4. CoreVM correspondence (whole-interpreter model) on the program fragment it covers.
+  5. reference matches (phase 5): every real registration of a head on `match $ref.M()` / `$e.action.M()` ... is re-computed by
+     Models/RefName.lean::nameOf from the referent observed at that moment (driver op C09.refname) — `compare_refnames`; the
+     oracle's scan takes the waited name from `get_event_from_element` evaluated on the CURRENT context.
 """
 import json
 import random
@@ -37,17 +40,22 @@ RULE = ("program: 1-5 generated Colang 2.x flows (match/send/start/await, and/or
         "x length <=5 for small programs; several tie-break seeds; extra shapes: main flow not kept alive (restarted, stays WAITING), "
         "histories dense in clock jumps / save-restore round trips, observer flows (flow-object events of flows started by somebody "
         "else inside `when` conditions and groups), control events addressed through a flow reference (`send $ref.Stop()`, "
-        "StopFlow / FinishFlow by flow_instance_uid), `deactivate`. non-trivial = at least one event moved a head that was "
+        "StopFlow / FinishFlow by flow_instance_uid), `deactivate`; ONE reference match statement reached several times with references of different kinds (harness/impl/corevm_refgen.py: "
+        "generic helper flows over a `$ref` parameter used with actions of two types and flows, loops re-binding one variable, activated watcher flows "
+        "waiting on `$e.action.Finished()` / `$e.flow.Finished()` that restart, parametrised flows, every member of the event-name maps; outgoing events echoed as input). non-trivial = at least one event moved a head that was "
         "parked (index changed) AND the program has >=2 flow instances or a fork; distinct = distinct (program, history, seed).")
 TRUSTED_BASE = [
     "recorder harness/impl/corevm.py (monkey-patched setters / dict wrapper; appends only) and the pattern grouping `group_ops`",
     "Lean driver Drive/C09.lean (JSON codec) ; the repo's own parser + expand_elements produce the programs both sides run",
-    "oracle harness/props/C09.py::oracle (from-scratch scan written from the property statement)",
+    "oracle harness/props/C09.py::oracle (from-scratch scan written from the property statement; the name a parked match waits for is "
+    "taken from get_event_from_element on the current context, the function the dispatcher compares incoming events with)",
+    "recorder wrapper of _add_head_to_event_matching_structures (referent class / type as seen at the registration; appends only)",
 ]
 ASSUMPTIONS = [
     "uuid4 uids are fresh and head uids have fixed length (reverse-map key flow_uid+head_uid modelled as a pair)",
     "the event name of a parked match element does not change while the head is parked (NoRefReassignWhileParked); the oracle "
-    "recomputes the name on every observation and reports when it differs",
+    "recomputes the name on every observation and reports when it differs (index-name-stale: changed since a correct registration at "
+    "the current position; index-name-wrong-at-registration: never was the element's name)",
     "hand-modelled: _flow_head_changed, _add/_remove_head_*_event_matching_structures, FlowHead.position/status setters, "
     "every write to FlowState.heads / FlowState.status in statemachine.py (slide, _abort_flow, _finish_flow, add_new_flow_instance, _clean_up_state)",
 ]
